@@ -3,26 +3,26 @@
 import json, sys, subprocess
 impl = sys.argv[1:]
 T = {
- "C01": ("round-trip / successor / path-independence / Next(n) monitors on the civil-day walk", "reference-model + metamorphic monitors over recorded conversions", "RefCal integer JDN model; month table validated separately by C02/C06"),
+ "C01": ("round-trip / successor / path-independence (three construction routes) / Next(n) monitors on the civil-day walk, with distractor conversions in between", "reference-model + metamorphic monitors over recorded conversions", "RefCal integer JDN model; month table validated separately by C02/C06"),
  "C02": ("month-start and leap-rule monitor against an independent ephemeris (Meeus new moon + Espenak-Meeus delta-T), a rule re-derivation from the library's precise term instants, and the committed ICU 72 month table", "reference-model monitor with masked margin (independent ephemeris, ICU table)", "RefAstro validated by agreement statistics re-measured each run; ICU table generated once from libicu 72; fixed margins around local midnight"),
  "C03": ("solar-term table invariants, root-at-hook residual (library ephemeris evaluated forward at the reported instant), independent low-precision Sun, sorted-list model of prev/next/current lookups", "invariant at hook + reference-model monitor", "hook VerifSaLon is a thin wrapper; RefAstro Sun good to 20 min for years 1..3000"),
- "C04": ("JD / stepping algebra monitor against the integer JDN reference model", "reference-model monitor (integer civil calendar)", "RefCal self-tested for inverse and continuity over the whole range"),
+ "C04": ("JD / stepping algebra monitor against the integer JDN reference model; stepped and Julian-day objects compared accessor by accessor with constructed ones; month-end and leap-day stepping sweep", "reference-model monitor (integer civil calendar)", "RefCal self-tested for inverse and continuity over the whole range"),
  "C05": ("pillar monitor at day, 23:00, slot and Jie boundaries against sexagenary arithmetic on JDN and the library's own term instants", "reference-model monitor (sexagenary arithmetic) at boundary-dense moments", "Jie instants are taken from the library's table (validated by C03); anchors 2000-01-01=戊午, 1984=甲子"),
  "C06": ("year-structure invariants on every year table plus month-walk model (concatenated tables as one sequence)", "structural invariants + sequence model monitor", "reform years 8-23 and 236-240 excluded as the property states"),
  "C07": ("accept/reject monitor over argument boxes plus seeded program fuzzer validating every produced object", "accept/reject oracle + program fuzzing with object validation", "validity predicate from RefCal and the month table (tied to conversions by C01)"),
- "C08": ("reflective totality / well-formedness walker over every zero-argument accessor of every reachable object", "reflection-driven accessor walker with vocabulary and range rules", "closed vocabularies built from first principles or the library's exported tables read at run time"),
- "C09": ("Go race detector, per-call digest equality across histories and schedules, lock-free-at-quiescence hook, runtime deadlock detector", "race detector + history/schedule digest monitors + lock invariant hook", "sequential spec is a pure function of the arguments, so linearizability reduces to per-call equality"),
+ "C08": ("reflective totality / well-formedness walker over every zero-argument accessor of every reachable object, plus used = fresh and first-call order-independence checks on every root object", "reflection-driven accessor walker with vocabulary and range rules", "closed vocabularies built from first principles or the library's exported tables read at run time"),
+ "C09": ("Go race detector (concurrent rounds, shared-object rounds, first-use rounds and timing-independent first-call slots), per-call digest equality across histories, first calls and schedules, lock-free-at-quiescence hook, runtime deadlock detector", "race detector + history/schedule digest monitors + lock invariant hook", "sequential spec is a pure function of the arguments, so linearizability reduces to per-call equality"),
  "C10": ("reverse-lookup monitor: forward conversion as specification for soundness, completeness per two-hour slot, ordering", "round-trip monitor with forward conversion as oracle", "time.Now().Year() read once and treated as an input"),
  "C11": ("route-equivalence table plus chart functional-dependency monitor", "metamorphic route-equivalence + functional-dependency monitors", "pairs of routes taken from the documented equivalences"),
  "C12": ("fortune-chain monitor: direction, start offset, decade chaining, pillar stepping re-implemented from the property text", "reference-model monitor (rule re-implementation)", "Jie instants from the library's table; school-1 slot reading as in DESIGN C12"),
  "C13": ("seasonal-rule monitor: nine-nines, dog days, pentads, Chuxi, Hanshi, She re-implemented over term days and day stems", "reference-model monitor (rule re-implementation) on the day walk", "term days from the library's table (validated by C03)"),
- "C14": ("holiday view monitor against a record-set model parsed from the hooked raw table, workday stepping model, Fix fuzzer", "record-set model monitor + fix-up fuzzing at a state hook", "hook VerifDataInUse/VerifReset; statutory list from the property text"),
+ "C14": ("holiday view monitor against a record-set model parsed from the hooked raw table (in calendar order and shuffled), workday stepping model, Fix fuzzer and a sweep of every possible single addition", "record-set model monitor + fix-up fuzzing at a state hook", "hook VerifDataInUse/VerifReset; statutory list from the property text"),
  "C15": ("partition / navigation monitor against a JDN-based week model", "reference-model monitor (JDN week model)", "RefCal weekday"),
  "C16": ("nine-star step monitor: year/month/day/hour rules re-implemented, naming tables consistent", "reference-model monitor (rule re-implementation) on the day walk", "year pillar conventions from C05's reference; solstice days from the library's table"),
  "C17": ("Tao/Foto offset, round-trip and day-class predicate monitor", "reference-model + functional-dependency monitors", "published day lists read from the library's exported tables (open data)"),
  "C18": ("functional-dependency monitors keyed by the declared defining inputs plus classical-law checks", "functional-dependency monitors over recorded accessor values", "keys read from the same object's pillar getters (validated by C05)"),
- "C19": ("print/parse/order monitor with independent parsers", "round-trip (print-parse) and order monitors", "Chinese numeral/month/day vocabularies built in the harness"),
- "C20": ("zodiac partition and k-th weekday festival monitor against RefCal", "reference-model monitor + exactly-once counters", "conventional sign start days and the festival tables read at run time"),
+ "C19": ("print/parse/order monitor with independent parsers, a direct print-alike map over each walked year, prints of stepped objects", "round-trip (print-parse) and order monitors", "Chinese numeral/month/day vocabularies built in the harness"),
+ "C20": ("zodiac partition and k-th weekday festival monitor against RefCal, also on objects reached by stepping or through a Julian day, plus two single-process history passes", "reference-model monitor + exactly-once counters", "conventional sign start days and the festival tables read at run time"),
 }
 commits = subprocess.run(["git","-C","/repo","log","--format=%h %s","--grep=^verif hooks"],capture_output=True,text=True).stdout.strip().splitlines()
 checks=[]; na=[]
